@@ -10,17 +10,19 @@ KW = {"add": "+", "sub": "-", "mul": "*", "div": "/", "and": "and", "or": "or", 
 SYM = dict(KW, **{"and": "&&", "or": "||", "implies": "->", "iff": "<->", "not": "!"})
 # identifiers that merely start with a keyword must stay identifiers
 RENAME = {"a": "android", "b": "notx", "c": "iffy", "d": "inx"}
+# names that start with a literal or another keyword (style 3)
+RENAME3 = {"a": "trueish", "b": "falsey", "c": "orbit", "d": "maxim"}
 
 
 def render(tokens, style):
-    """style 0: keywords, spaces; 1: symbolic aliases, tight implicit products; 2: keyword-prefixed identifiers"""
+    """style 0: keywords, spaces; 1: symbolic aliases, tight implicit products; 2, 3: keyword- / literal-prefixed identifiers"""
     out = []
     for i, t in enumerate(tokens):
         k = t["k"]
         if k in ("op", "un"):
             s = (SYM if style == 1 else KW)[t["s"]]
         elif k == "id":
-            s = RENAME[t["s"]] if style == 2 else t["s"]
+            s = RENAME[t["s"]] if style == 2 else RENAME3[t["s"]] if style == 3 else t["s"]
         else:
             s = t["s"]
         out.append(s)
@@ -36,8 +38,9 @@ def render(tokens, style):
 
 def with_text(case, style):
     toks = case["tokens"]
-    if style == 2:
-        toks = [dict(t, s=RENAME[t["s"]]) if t["k"] == "id" else t for t in toks]
+    if style in (2, 3):
+        ren = RENAME if style == 2 else RENAME3
+        toks = [dict(t, s=ren[t["s"]]) if t["k"] == "id" else t for t in toks]
     names = sorted({t["s"] for t in toks if t["k"] == "id"}) or ["a"]
     expr = render(case["tokens"], style)
     text = f"min {expr}\ns.t.\n    {names[0]} >= 0\ndefine\n    {', '.join(names)} as IntegerRange(0, 9)"
@@ -54,7 +57,7 @@ def check(tier, seed, replay=None):
         cases = [{"id": c["id"], "tokens": c["tokens"], "text": c["text"], "expr": c.get("expr", "")}]
     else:
         raw = []
-        plan = [("All5.cfg", 2500, None), ("Ops3.cfg", 2200, None)]
+        plan = [("All5.cfg", 2500, None), ("UnPar.cfg", 700, None), ("Ops3.cfg", 2200, None)]
         for cfg, n, sim in plan:
             cs, g, d = core.gen_cases(SPEC_DIR, "TokGen.tla", cfg, "tok" + cfg[:-4], workers=8)
             for i, c in enumerate(cs):
@@ -75,7 +78,7 @@ def check(tier, seed, replay=None):
         raw += cs
         cases = []
         for i, c in enumerate(raw):
-            styles = (0, 1, 2) if tier == "thorough" else ((i + seed) % 3,)
+            styles = (0, 1, 2, 3) if tier == "thorough" else ((i + seed) % 4,)
             for st in styles:
                 cases.append(with_text(c, st))
     events = core.rv_parallel("parse", cases, prop, procs=8)
@@ -97,9 +100,9 @@ def check(tier, seed, replay=None):
         "samples": samples,
         "evaluations": sum(s[3] for s in v.stats),
         "distinct_nontrivial": sum(1 for s in v.stats if s[2] >= 5),
-        "rule": "one event = one token string from spec/parse/TokGen.tla rendered in one of three spellings (keywords / symbolic aliases with tight implicit products /"
+        "rule": "one event = one token string from spec/parse/TokGen.tla rendered in one of four spellings (keywords / symbolic aliases with tight implicit products / literal-prefixed identifiers /"
                 " keyword-prefixed identifiers), parsed by the real front end and compared by value with Pratt!Parse at all assignments over {0,1,2,3,5,7};"
-                " non-trivial = at least 5 tokens; quick: seeded stride sample, thorough: every string in all three spellings",
+                " non-trivial = at least 5 tokens; quick: seeded stride sample, thorough: every string in all four spellings",
         "exhaustive": tier == "thorough" and not replay,
         "families": meta,
         "unverifiable_overflow_count": len(v.overflow_ids),
